@@ -37,43 +37,108 @@ def _cached(key, make):
     return _OPS[key]
 
 
-def drive(op_factory, chunks, key=None):
+_MODE = [0]
+LAST_MODE = ['plain']
+
+
+def drive(op_factory, chunks, key=None, junk=None, mode=None):
     """Push `chunks` one at a time through the real operator; return per-chunk outputs,
-    completion outputs and how the stream ended."""
+    completion outputs and how the stream ended.
+
+    Two executions out of seven are preceded by a warm-up subscription of the *same piped
+    observable* that receives `junk` (the beginning of some other framed stream, cut inside a
+    frame) and is disposed; the judged execution is the second subscription.
+    Two out of seven deliver re-entrantly: while the subscriber receives the last item that a
+    chunk completes, it pushes the next chunk (a feedback loop through the source Subject);
+    the outputs are then attributed to the chunks by a plain run made first."""
     from rx.subject import Subject
-    subj = Subject()
     if key is not None:
         op = _cached(key, op_factory)
         op_factory = lambda: op
-    cur = []
-    state = {'ended': 'open'}
+    _MODE[0] += 1
+    if mode is None:
+        mode = {1: 'warmup', 4: 'warmup', 2: 'reentrant', 5: 'reentrant'}.get(_MODE[0] % 7, 'plain')
+    LAST_MODE[0] = mode
 
-    def on_error(e):
-        state['ended'] = 'error:%s' % type(e).__name__
+    def run(reentrant_counts=None, warm=False):
+        subj = Subject()
+        piped = subj.pipe(op_factory())
+        cur = []
+        state = {'ended': 'open'}
+        pos = [0]
+        got = [0]
+        outs = []
 
-    def on_completed():
-        state['ended'] = 'completed'
-    subj.pipe(op_factory()).subscribe(on_next=cur.append, on_error=on_error,
-                                      on_completed=on_completed)
-    outs = []
-    for c in chunks:
-        try:
+        def on_error(e):
+            state['ended'] = 'error:%s' % type(e).__name__
+
+        def on_completed():
+            state['ended'] = 'completed'
+        if warm and junk:
+            try:
+                d = piped.subscribe(on_next=lambda x: None, on_error=lambda e: None)
+                for c in junk:
+                    subj.on_next(c)
+                d.dispose()
+            except Exception:
+                pass
+
+        def push_next():
+            c = chunks[pos[0]]
+            pos[0] += 1
+            got[0] = 0
+            mark = len(cur)
             subj.on_next(c)
-        except Exception as e:  # an exception escaping on_next is an error of the stream
-            state['ended'] = 'raised:%s' % type(e).__name__
-            outs.append(list(cur))
-            cur.clear()
-            break
-        outs.append(list(cur))
-        cur.clear()
-    else:
-        try:
-            subj.on_completed()
-        except Exception as e:
-            state['ended'] = 'raised:%s' % type(e).__name__
-    while len(outs) < len(chunks):
-        outs.append([])
-    return outs, list(cur), state['ended']
+            return mark
+
+        def on_next(x):
+            cur.append(x)
+            got[0] += 1
+            if reentrant_counts is not None and pos[0] < len(chunks) and state['ended'] == 'open' \
+                    and got[0] == reentrant_counts[pos[0] - 1]:
+                push_next()          # nested: from inside the delivery of this item
+        piped.subscribe(on_next=on_next, on_error=on_error, on_completed=on_completed)
+        while pos[0] < len(chunks):
+            k = pos[0]
+            try:
+                push_next()
+            except Exception as e:  # an exception escaping on_next is an error of the stream
+                state['ended'] = 'raised:%s' % type(e).__name__
+                break
+            if reentrant_counts is None:
+                while len(outs) < k:
+                    outs.append([])
+                outs.append(list(cur))
+                cur.clear()
+        else:
+            if reentrant_counts is not None:
+                flat = list(cur)
+                cur.clear()
+            try:
+                subj.on_completed()
+            except Exception as e:
+                state['ended'] = 'raised:%s' % type(e).__name__
+        if reentrant_counts is not None:
+            # attribute the outputs to the chunks as the plain run did (same items, same order,
+            # is what the specification then checks)
+            if state['ended'].startswith('raised') or pos[0] < len(chunks):
+                flat = list(cur)
+                cur.clear()
+            outs, p = [], 0
+            for n in reentrant_counts:
+                outs.append(flat[p:p + n])
+                p += n
+            if p < len(flat):
+                outs[-1:] = [outs[-1] + flat[p:]] if outs else [flat[p:]]
+        while len(outs) < len(chunks):
+            outs.append([])
+        return outs, list(cur), state['ended']
+
+    if mode == 'reentrant' and chunks:
+        base = run()
+        counts = [len(o) for o in base[0]]
+        return run(reentrant_counts=counts)
+    return run(warm=(mode == 'warmup'))
 
 
 def frame_all(op_factory, items):
@@ -96,30 +161,32 @@ def cut(seq, sizes):
     return chunks
 
 
-def line_trace(items, tail, sizes):
+def line_trace(items, tail, sizes, mode=None):
     import rxsci.framing.line as line
     framed = frame_all(line.frame, items)
     wire = ''.join(framed) + tail
-    outs, final, ended = drive(line.unframe, cut(wire, sizes), key=('line', id(line)))
+    outs, final, ended = drive(line.unframe, cut(wire, sizes), key=('line', id(line)),
+                               junk=['zz', 'q\nr', 'st'], mode=mode)
     enc = lambda s: [ord(ch) for ch in s]
     return {'items': [enc(i) for i in items], 'tail': enc(tail), 'wire': enc(wire),
             'chunks': [enc(c) for c in cut(wire, sizes)],
             'outs': [[enc(x) for x in o] for o in outs], 'final': [enc(x) for x in final],
-            'ended': ended}
+            'ended': ended, 'mode': LAST_MODE[0]}
 
 
-def lp_trace(items, cutoff, sizes, p, order):
+def lp_trace(items, cutoff, sizes, p, order, mode=None):
     import rxsci.framing.length_prefix as lp
     framed = frame_all(lambda: lp.frame(prefix_size=p, byteorder=order), items)
     if cutoff >= 0 and framed:
         framed[-1] = framed[-1][:cutoff]
     wire = b''.join(framed)
     outs, final, ended = drive(lambda: lp.unframe(prefix_size=p, byteorder=order),
-                               cut(wire, sizes), key=('lp', p, order, id(lp)))
+                               cut(wire, sizes), key=('lp', p, order, id(lp)),
+                               junk=[(3).to_bytes(p, order) + b'ab', (5).to_bytes(p, order)[:max(1, p - 1)]], mode=mode)
     return {'items': [list(i) for i in items], 'cutoff': cutoff, 'wire': list(wire),
             'chunks': [list(c) for c in cut(wire, sizes)],
             'outs': [[list(x) for x in o] for o in outs], 'final': [list(x) for x in final],
-            'ended': ended}
+            'ended': ended, 'mode': LAST_MODE[0]}
 
 
 def random_sizes(rng, n, maxchunk):
@@ -161,12 +228,13 @@ def do_replay(path):
     sizes = [len(c) for c in tr['chunks']]
     if w['op'] == 'line':
         new = line_trace([''.join(map(chr, i)) for i in tr['items']],
-                         ''.join(map(chr, tr['tail'])), sizes)
+                         ''.join(map(chr, tr['tail'])), sizes, mode=tr.get('mode', 'plain'))
         v, _ = C.validate_traces('LineFramingTrace', [new],
                                  cfg_text=C.cfg(spec='TraceSpec', constants=LINE_CFG))
     else:
         p, order = w['config'][2:].split(',')
-        new = lp_trace([bytes(i) for i in tr['items']], tr['cutoff'], sizes, int(p), order)
+        new = lp_trace([bytes(i) for i in tr['items']], tr['cutoff'], sizes, int(p), order,
+                       mode=tr.get('mode', 'plain'))
         v, _ = C.validate_traces('LengthPrefixTrace', [new], cfg_text=C.cfg(
             spec='TraceSpec', constants=dict(Bytes=set(), P=int(p), Order=order, MaxItems=0,
                                              MaxLen=0, MaxChunk=0, KeepHist=False, Deviation='none')))
